@@ -54,6 +54,9 @@ class _LiveRender(LiveRender):
         self, console: Console, options: ConsoleOptions
     ) -> RenderResult:
         with self._live._lock:
+            # the frame is laid out for the console, not with the options of the print it rides on
+            # (soft_wrap, Console.out and print(width=...) would otherwise reshape the display)
+            options = console.options
             lines = console.render_lines(self.renderable, options, pad=False)
 
             shape = Segment.get_shape(lines)
